@@ -112,6 +112,11 @@ def _r1(run, ev):
                 deleted |= set(src[1][1][1].split())
             elif src[0] in ("list", "tuple"):
                 deleted |= {x[1] for x in src[1] if x[0] == "const"}
+    # h.remove("KW"[, ignore_missing=True]) / h.pop("KW"[, default]): the other spellings of `del h["KW"]` on an astropy Header
+    for e in r.events:
+        if e.kind == "call" and e.term[1][0] == "attr" and e.term[1][1] == h and e.term[1][2] in ("remove", "pop") and e.term[2] \
+                and e.term[2][0][0] == "const" and not [c for c in e.pc if c[0] != "loop"]:
+            deleted.add(e.term[2][0][1])
     sy = lambda s: ("sym", s)
     want = {
         "CD1_1": sym.mul(sy("CDELT1"), sy("PC1_1|1.0")),
@@ -126,6 +131,11 @@ def _r1(run, ev):
             if escaped:
                 run.undecided("C16.R1", f, escaped[0].node, "the header is handed to %s, which the analysis does not follow: cannot tell what %s becomes" % (
                     show(escaped[0].term[1])[:60], key), kind="header-escapes")
+                return
+            bulk = [e for e in r.events if e.kind == "call" and e.term[1][0] == "attr" and e.term[1][1] == h and e.term[1][2] in ("update", "extend", "set", "insert", "append", "__setitem__", "fromkeys")]
+            if bulk:
+                run.undecided("C16.R1", f, bulk[0].node, "the header is filled through %s, which is not followed key by key: cannot tell what %s becomes" % (
+                    show(bulk[0].term)[:70], key), kind="header-bulk-update")
                 return
             run.violated("C16.R1", f, None, "the reflected header never sets %s" % key, kind="missing-" + key)
             continue
